@@ -638,6 +638,10 @@ func (p *Parse) analyzeTName() {
 		for _, v := range v.Mb {
 			ty := v.Type
 			p.checkDepTName(ty, &p.tarsFile.Module.Struct[i].DependModule, &p.tarsFile.Module.Struct[i].DependModuleWithJce)
+			if v.Default != "" && ty.Type == token.Name && ty.CType == token.Struct {
+				// a number was taken for the named type because it could have been an enum; now it is known not to be one
+				p.parseErr("member " + v.Key + ": struct type cannot set default value")
+			}
 		}
 	}
 
